@@ -67,13 +67,14 @@ func (a *ftAgg) note(format string, v ...any) {
 
 // ftWorld is the world of one execution
 type ftWorld struct {
-	c    *engine.Ctx
-	agg  *ftAgg
-	cs   ftCase
-	ctx  context.Context
-	s    *world.Server
-	rec  *recstore.Rec // recorder around the server storage
-	frec *recstore.Rec // recorder the fault is armed on (server by default, node storage for node-side flows)
+	retrying bool // the call is being repeated after the faulted call failed
+	c        *engine.Ctx
+	agg      *ftAgg
+	cs       ftCase
+	ctx      context.Context
+	s        *world.Server
+	rec      *recstore.Rec // recorder around the server storage
+	frec     *recstore.Rec // recorder the fault is armed on (server by default, node storage for node-side flows)
 
 	// node-side storage (node-side flows only)
 	ninner nodeenrollment.Storage
@@ -106,6 +107,10 @@ func (w *ftWorld) viol(key, what string) {
 	w.flagged = true
 	if key != "consumed-token-still-usable" {
 		key = key + ":" + w.cs.Flow
+	}
+	if w.retrying {
+		key = "on-retry-after-failed-call:" + key
+		what = "the same call repeated, without a fault, after the faulted call had failed: " + what
 	}
 	desc := fmt.Sprintf("%s (flow %s, back end %s, storage wrapper %v, failing operation %d of the call, kind %q)", what, w.cs.Flow, w.cs.Backend, w.cs.Wrap, w.cs.Pos, w.cs.Kind)
 	if w.cs.Pos == 0 {
@@ -1075,6 +1080,21 @@ func ftRunCase(c *engine.Ctx, agg *ftAgg, cs ftCase) (int, bool) {
 	}
 	if len(w.tokens) > 0 {
 		r.Count("token_clause_checked", 1)
+	}
+	if cerr != nil && !w.flagged {
+		// the caller retries: the same call on the same in-memory objects, storage working again.
+		// It may fail or succeed, but a success must again be reflected in storage.
+		var rerr error
+		w.retrying = true
+		if p2, st2 := engine.Guard(func() { rerr = inst.call() }); p2 != nil {
+			r.Violation("panic:"+engine.LibraryFrame(st2), fmt.Sprintf("flow %s panicked when repeated after a failed storage operation %d (%s): %v", cs.Flow, cs.Pos, cs.Kind, p2), cs)
+			return count, true
+		}
+		inst.judge(rerr)
+		r.Count("retries_after_failed_call", 1)
+		if rerr == nil {
+			r.Count("retries_after_failed_call:succeeded", 1)
+		}
 	}
 	return count, true
 }
